@@ -37,3 +37,85 @@ pub mod chacha20 {
     }
     }
 }
+
+pub mod aes {
+    use vstd::prelude::*;
+    use crate::generic_array::*;
+    use crate::cryptospec::*;
+    verus!{
+    #[verifier::external_body]
+    pub struct Aes256Ctr { _x: u8 }
+    impl Aes256Ctr {
+        pub uninterp spec fn key(&self) -> Seq<u8>;
+        pub uninterp spec fn iv(&self) -> Seq<u8>;
+        pub uninterp spec fn pos(&self) -> nat;
+    }
+    pub mod cipher {
+        use vstd::prelude::*;
+        use super::*;
+        pub mod generic_array { pub use crate::generic_array::GenericArray; }
+        pub trait NewCipher: Sized {
+            spec fn kk(&self) -> Seq<u8>; spec fn nn(&self) -> Seq<u8>; spec fn pp(&self) -> nat;
+            fn new(key: &GenericArray<U32>, nonce: &GenericArray<U16>) -> (r: Self) ensures r.kk() == key@, r.nn() == nonce@, r.pp() == 0; }
+        pub trait StreamCipher {
+            spec fn sk(&self) -> Seq<u8>; spec fn sn(&self) -> Seq<u8>; spec fn sp(&self) -> nat;
+            fn apply_keystream(&mut self, buf: &mut [u8])
+                requires old(self).sp() == 0
+                ensures final(buf)@ == aes256_ctr_xor(old(self).sk(), old(self).sn(), old(buf)@), final(self).sp() == old(buf)@.len();
+        }
+        impl NewCipher for Aes256Ctr {
+            open spec fn kk(&self) -> Seq<u8> { self.key() } open spec fn nn(&self) -> Seq<u8> { self.iv() } open spec fn pp(&self) -> nat { self.pos() }
+            #[verifier::external_body]
+            fn new(key: &GenericArray<U32>, nonce: &GenericArray<U16>) -> (r: Self) { unimplemented!() }
+        }
+        impl StreamCipher for Aes256Ctr {
+            open spec fn sk(&self) -> Seq<u8> { self.key() } open spec fn sn(&self) -> Seq<u8> { self.iv() } open spec fn sp(&self) -> nat { self.pos() }
+            #[verifier::external_body]
+            fn apply_keystream(&mut self, buf: &mut [u8]) { unimplemented!() }
+        }
+    }
+    }
+}
+pub mod chacha20poly1305 {
+    use vstd::prelude::*;
+    use crate::generic_array::*;
+    use crate::cryptospec::*;
+    verus!{
+    pub type XNonce = GenericArray<U24>;
+    #[derive(Debug)] pub struct Error;
+    #[verifier::external_body]
+    pub struct XChaCha20Poly1305 { _x: u8 }
+    impl XChaCha20Poly1305 { pub uninterp spec fn key(&self) -> Seq<u8>; }
+    pub trait KeyInit: Sized {
+        spec fn kkey(&self) -> Seq<u8>;
+        fn new_from_slice(key: &[u8]) -> (r: Result<Self, crate::digest::InvalidLength>)
+            ensures key@.len() == 32 <==> r is Ok, r is Ok ==> r->Ok_0.kkey() == key@;
+    }
+    impl KeyInit for XChaCha20Poly1305 {
+        open spec fn kkey(&self) -> Seq<u8> { self.key() }
+        #[verifier::external_body]
+        fn new_from_slice(key: &[u8]) -> (r: Result<Self, crate::digest::InvalidLength>) { unimplemented!() }
+    }
+    pub mod aead {
+        use vstd::prelude::*;
+        use super::*;
+        pub struct Payload<'msg, 'aad> { pub msg: &'msg [u8], pub aad: &'aad [u8] }
+        pub trait Aead {
+            spec fn akey(&self) -> Seq<u8>;
+            fn encrypt<'msg, 'aad>(&self, nonce: &XNonce, plaintext: Payload<'msg, 'aad>) -> (r: Result<Vec<u8>, Error>)
+                ensures r is Ok ==> r->Ok_0@ == xchacha20poly1305_seal(self.akey(), nonce@, plaintext.aad@, plaintext.msg@),
+                        plaintext.msg@.len() + 16 <= usize::MAX ==> r is Ok;
+            fn decrypt<'msg, 'aad>(&self, nonce: &XNonce, ciphertext: Payload<'msg, 'aad>) -> (r: Result<Vec<u8>, Error>)
+                ensures match xchacha20poly1305_open(self.akey(), nonce@, ciphertext.aad@, ciphertext.msg@) {
+                    Some(m) => r is Ok && r->Ok_0@ == m, None => r is Err };
+        }
+        impl Aead for XChaCha20Poly1305 {
+            open spec fn akey(&self) -> Seq<u8> { self.key() }
+            #[verifier::external_body]
+            fn encrypt<'msg, 'aad>(&self, nonce: &XNonce, plaintext: Payload<'msg, 'aad>) -> (r: Result<Vec<u8>, Error>) { unimplemented!() }
+            #[verifier::external_body]
+            fn decrypt<'msg, 'aad>(&self, nonce: &XNonce, ciphertext: Payload<'msg, 'aad>) -> (r: Result<Vec<u8>, Error>) { unimplemented!() }
+        }
+    }
+    }
+}
